@@ -87,7 +87,8 @@ func isAtextByte(c byte) bool {
 }
 
 var trickyLocals = []string{"plain", "dot.ted", "a b", "a b>c", "x<y", "semi;colon", "com,ma", "co:lon", "at@sign", "back\\slash", "quo\"te", "(paren)", "trailing.", ".leading", "dou..ble",
-	"ümlaut", "日本", "tab\there", "a>b c<d", "\"", "\\", " ", "MAIL FROM:<x@y>", "a> SIZE=1", "a@b>", "<>"}
+	"ümlaut", "日本", "tab\there", "a>b c<d", "\"", "\\", " ", "MAIL FROM:<x@y>", "a> SIZE=1", "a@b>", "<>",
+	"bob%example.org", "100%.off+news", "sales%%eu", "%s", "%d%v", "a%!b", "pct %s in quotes", "%[1]s", "%"}
 
 func quoteForHeader(local string) string {
 	var b strings.Builder
